@@ -906,6 +906,10 @@ func (di *dynInterp) call(f *ssa.Function, c *ssa.Call, get func(ssa.Value) aval
 		if di.arith && len(args) == 2 && args[0].k == avDyn && args[1].k == avDyn && args[0].c != nil && args[1].c != nil {
 			return cBool(args[0].a == args[1].a && constant.Compare(args[0].c, token.EQL, args[1].c))
 		}
+		// the nil interface is deeply equal to itself only
+		if di.arith && len(args) == 2 && args[0].k == avDyn && args[1].k == avDyn && (args[0].a == aNil || args[1].a == aNil) {
+			return cBool(args[0].a == args[1].a)
+		}
 		return top
 	case "reflect.ValueOf", "reflect.TypeOf":
 		return args[0]
@@ -948,6 +952,9 @@ func (di *dynInterp) call(f *ssa.Function, c *ssa.Call, get func(ssa.Value) aval
 	}
 	if strings.HasPrefix(q, "reflect.Value.") {
 		kindCheck(strings.TrimPrefix(q, "reflect.Value."), args[0])
+		if q == "reflect.Value.MapIndex" && len(c.Call.Args) == 2 && !di.mapKeyCompatible(c) {
+			di.issue(c, f, "reflect.Value.MapIndex with a key taken from another map whose key type is not established to be the same (MapIndex panics when the key is not assignable to the map's key type)")
+		}
 		if di.arith && args[0].k == avDyn && args[0].c != nil {
 			switch strings.TrimPrefix(q, "reflect.Value.") {
 			case "Int", "Uint":
@@ -956,6 +963,14 @@ func (di *dynInterp) call(f *ssa.Function, c *ssa.Call, get func(ssa.Value) aval
 				}
 			case "Float":
 				return aval{k: avConst, c: constant.ToFloat(args[0].c)}
+			case "String":
+				if args[0].c.Kind() == constant.String {
+					return aval{k: avConst, c: args[0].c}
+				}
+			case "Bool":
+				if args[0].c.Kind() == constant.Bool {
+					return aval{k: avConst, c: args[0].c}
+				}
 			}
 		}
 	}
@@ -1550,4 +1565,50 @@ func swagIsFloat64AJSONInteger(f float64) bool {
 		return diff < (epsilon * math.SmallestNonzeroFloat64)
 	}
 	return diff/math.Min(fa+ga, math.MaxFloat64) < epsilon
+}
+
+// mapKeyCompatible: m.MapIndex(k) is safe for the key type when k is an element of m.MapKeys() itself, or of
+// another map's MapKeys() under an established equality of the two key types (`a.Type().Key() == b.Type().Key()`
+// held, or its negation failed, on every path to the call); keys of any other origin are not judged here.
+func (di *dynInterp) mapKeyCompatible(c *ssa.Call) bool {
+	m := c.Call.Args[0]
+	var from ssa.Value
+	if ld, isLd := c.Call.Args[1].(*ssa.UnOp); isLd {
+		if ia, isIA := ld.X.(*ssa.IndexAddr); isIA {
+			if kc, isKC := ia.X.(*ssa.Call); isKC {
+				if kg := core.StaticCallee(kc); kg != nil && core.QualName(kg) == "reflect.Value.MapKeys" {
+					from = kc.Call.Args[0]
+				}
+			}
+		}
+	}
+	if from == nil || from == m {
+		return true
+	}
+	// Key() of Type() of v
+	keyOf := func(v ssa.Value) ssa.Value {
+		k, ok := v.(*ssa.Call)
+		if !ok || !k.Call.IsInvoke() || k.Call.Method.Name() != "Key" {
+			return nil
+		}
+		tc, ok := k.Call.Value.(*ssa.Call)
+		if !ok {
+			return nil
+		}
+		if g := core.StaticCallee(tc); g == nil || core.QualName(g) != "reflect.Value.Type" {
+			return nil
+		}
+		return tc.Call.Args[0]
+	}
+	for _, cd := range core.CondsAt(c.Block()) {
+		bo, ok := cd.Value.(*ssa.BinOp)
+		if !ok || (bo.Op != token.EQL && bo.Op != token.NEQ) || (bo.Op == token.EQL) != cd.Sense {
+			continue
+		}
+		x, y := keyOf(bo.X), keyOf(bo.Y)
+		if (x == m && y == from) || (x == from && y == m) {
+			return true
+		}
+	}
+	return false
 }
